@@ -765,6 +765,26 @@ func (st *ex4State) oracle(v *vio) {
 				v.add("X-tx-malformed", "%s: transmitted something that is not a BOOTP/DHCP packet", name)
 			}
 		}
+		// An exchange that fails without a NAK fails because nothing qualifying arrived: with the
+		// no-response error, after the phase it was in has been transmitted the configured
+		// number of times on the configured schedule (the calls are made with a context that
+		// never ends, and this scenario injects no socket errors).
+		if o.returned && o.err != nil && !errors.As(o.err, &nk) && o.kind != "release" && len(o.txs) > 0 {
+			phase := disc
+			if len(req) > 0 {
+				phase = req
+			}
+			if !errors.Is(o.err, nclient4.ErrNoResponse) {
+				v.add("X-fail-error", "%s: failed with %v, want the no-response error (nobody cancelled anything and no socket operation failed)", name, o.err)
+			} else if len(phase) > 0 {
+				if len(phase) != st.tries {
+					v.add("X-fail-count", "%s: gave up after %d transmission(s) of its last message, configured tries = %d", name, len(phase), st.tries)
+				}
+				if want := st.T * time.Duration((int64(1)<<uint(st.tries))-1); !st.stall && o.retT-phase[0].t != want {
+					v.add("X-fail-duration", "%s: gave up %v after first transmitting its last message, want exactly %v (T=%v, tries=%d)", name, o.retT-phase[0].t, want, st.T, st.tries)
+				}
+			}
+		}
 		switch o.kind {
 		case "discover", "request":
 			for j, tx := range disc {
